@@ -29,7 +29,7 @@ enum SOp {
 impl SOp {
     fn code(&self) -> String {
         match self {
-            SOp::Emit { h, out } => format!("E{}{}", h, match out { Out::Ok => "o".to_string(), Out::Err(k) => format!("e{}", k), Out::Panic => "p".to_string() }),
+            SOp::Emit { h, out } => format!("E{}{}", h, match out { Out::Ok => "o".to_string(), Out::Err(k) => format!("e{}", k), Out::Panic => "p".to_string(), Out::Blank(k) => format!("b{}", k) }),
             SOp::Clone { h } => format!("C{}", h),
             SOp::Drop { h } => format!("D{}", h),
             SOp::Release => "R".to_string(),
@@ -44,6 +44,7 @@ impl SOp {
                 let out = match b[2] {
                     b'o' => Out::Ok,
                     b'p' => Out::Panic,
+                    b'b' => Out::Blank(s[3..].parse().unwrap_or(0)),
                     _ => Out::Err(s[3..].parse().unwrap_or(0)),
                 };
                 SOp::Emit { h, out }
@@ -639,8 +640,8 @@ fn offline_rules(sc: &Scenario, log: &[Ev], accepted: &[String], viol: &mut Vec<
     }
     // C10: the wrapped sink never runs on a harness (caller) thread
     for e in log {
-        if let Ev::Enter { tid, metric } = e {
-            if procmon::is_harness_tid(*tid) {
+        if let Ev::Enter { tid, metric, on_harness_thread } = e {
+            if *on_harness_thread {
                 viol.push(V { props: vec!["C10"], rule: "R5", class: "sink-on-caller-thread".into(), detail: format!("the wrapped sink was invoked for {} on caller thread {}", metric, tid) });
                 return;
             }
@@ -655,7 +656,7 @@ fn offline_rules(sc: &Scenario, log: &[Ev], accepted: &[String], viol: &mut Vec<
                 let want_msg = format!("scripted-error:{}", metric);
                 let want_kind = ERR_KINDS[*kidx as usize % ERR_KINDS.len()];
                 match sinkside.get(i + 1) {
-                    Some(Ev::Handler { msg, kind, tid: ht }) => {
+                    Some(Ev::Handler { msg, kind, tid: ht, on_harness_thread: h_on_harness }) => {
                         if msg != &want_msg || *kind != want_kind {
                             viol.push(V { props: vec!["C16"], rule: "R8", class: "handler-wrong-error".into(), detail: format!("handler got {:?}/{} for the failure of {}", kind, msg, metric) });
                             return;
@@ -664,7 +665,7 @@ fn offline_rules(sc: &Scenario, log: &[Ev], accepted: &[String], viol: &mut Vec<
                             viol.push(V { props: vec!["C16"], rule: "R8", class: "handler-wrong-thread".into(), detail: format!("handler ran on thread {} but the wrapped sink failed on thread {}", ht, tid) });
                             return;
                         }
-                        if procmon::is_harness_tid(*ht) {
+                        if *h_on_harness {
                             viol.push(V { props: vec!["C16"], rule: "R8", class: "handler-on-caller-thread".into(), detail: format!("handler ran on caller thread {}", ht) });
                             return;
                         }
@@ -825,6 +826,7 @@ fn mode_seq_random(r: &mut Runner) {
         let mut sim = Sim::new(cap);
         sim.flushes = true;
         let mut ops = Vec::new();
+        let mut blanks_used: u8 = 0;
         let p_panic = if focus == "panic" { 40 } else { 12 };
         let p_err = if focus == "error" { 50 } else { 15 };
         for _ in 0..len {
@@ -846,7 +848,12 @@ fn mode_seq_random(r: &mut Runner) {
                 };
                 if keep {
                     break match o {
-                        SOp::Emit { h, out: Out::Err(_) } => SOp::Emit { h, out: Out::Err(rng.below(6) as u8) },
+                        SOp::Emit { h, out: Out::Err(_) } => SOp::Emit { h, out: Out::Err(rng.below(10) as u8) },
+                        // blank strings are legal through MetricSink::emit; each at most once per history (identity)
+                        SOp::Emit { h, out: Out::Ok } if rng.chance(1, 8) && blanks_used < 8 => {
+                            blanks_used += 1;
+                            SOp::Emit { h, out: Out::Blank(blanks_used - 1) }
+                        }
                         o => o,
                     };
                 }
@@ -915,6 +922,11 @@ fn mode_drop_matrix(r: &mut Runner) {
                             ops.push(SOp::Release);
                         }
                     }
+                    // every 5th history carries a blank metric (legal through MetricSink::emit) at the front
+                    if code % 5 == 4 {
+                        let pos = if with_clone { 1 } else { 0 };
+                        ops.insert(pos, SOp::Emit { h: 0, out: Out::Blank((code % 8) as u8) });
+                    }
                     let sc = Scenario { cap, handler: code % 2 == 0, ops };
                     r.run(&sc, "drop-matrix");
                     if r.should_stop() {
@@ -935,7 +947,7 @@ fn mode_outcomes(r: &mut Runner) {
     let shards = r.args.u64("shards", 1);
     let n_max = r.args.usize("n", 5);
     let alphabet: Vec<Out> = match r.args.str("alphabet", "oep").as_str() {
-        "oe" => vec![Out::Ok, Out::Err(0), Out::Err(3)],
+        "oe" => vec![Out::Ok, Out::Err(2), Out::Err(3)],
         _ => vec![Out::Ok, Out::Err(2), Out::Panic],
     };
     let a = alphabet.len();
@@ -980,6 +992,20 @@ fn mode_outcomes(r: &mut Runner) {
                 r.rep().exhaustive = Some(false);
                 return;
             }
+        }
+    }
+    // panic storms: long runs of consecutive panics (no successfully handled metric in between), then normal traffic
+    if shard == 0 || shards == 1 {
+        for (n_panics, cap) in [(140usize, None), (300, None), (200, Some(512usize))] {
+            let mut ops: Vec<SOp> = (0..n_panics).map(|_| SOp::Emit { h: 0, out: Out::Panic }).collect();
+            ops.push(SOp::Emit { h: 0, out: Out::Ok });
+            for _ in 0..3 {
+                ops.push(SOp::Release);
+            }
+            ops.push(SOp::Emit { h: 0, out: Out::Err(2) });
+            let sc = Scenario { cap, handler: true, ops };
+            r.run(&sc, "panic-storm");
+            r.rep().obs("panic_storm_histories", 1);
         }
     }
     r.rep().exhaustive = Some(true);
